@@ -253,7 +253,7 @@ class Engine:
 		self.notes = []
 		self.functions_verified = []
 		self._feas = z3.Solver()
-		self._feas.set('timeout', 300)
+		self._feas.set('rlimit', 300000)     # deterministic budget (no wall clock): the set of explored paths must not depend on machine load
 		self.paths = 0
 		self.fstack = []
 		self.assumptions_used = set()
@@ -389,7 +389,8 @@ class Engine:
 			raise Unsupported(f'{qualname}: no feasible path reaches an exit')
 
 	def _check_exit(self, st, out, c, fi):
-		self.obligations.append(Obligation(f'{self.prop}/{self.cur_label}/exit/{"normal" if out.kind != "raise" else "raise"}-reachable', list(st.pc), z3.BoolVal(False), {'expect': 'sat-any'}))
+		if out.kind != 'raise':
+			self.obligations.append(Obligation(f'{self.prop}/{self.cur_label}/exit/normal-reachable', list(st.pc), z3.BoolVal(False), {'expect': 'sat-any'}))
 		if out.kind == 'raise':
 			exc = out.value.exc
 			conds = [(n, cl) for n, cl in c.raises.items() if exc_isinstance(exc, n)]
